@@ -40,6 +40,49 @@ def byte_mutations(rnd, data, k):
     return out
 
 
+def npy_header_mutations(data):
+    """structured corruption of binary members: a well-formed .npy header that announces another dtype (object, a bigger
+    item size) or another shape than the payload has -- the header parses, the damage is only met when the array is built"""
+    import io
+    import re
+    import zipfile
+    out = []
+    try:
+        z = zipfile.ZipFile(io.BytesIO(data))
+        members = {n: z.read(n) for n in z.namelist()}
+    except Exception:
+        return out
+    for name, blob in members.items():
+        if not name.endswith(".npy") or not blob.startswith(b"\x93NUMPY"):
+            continue
+        variants = []
+        m = re.search(rb"'descr': '([<>|][a-zA-Z]\d*)'", blob[:256])
+        if m:
+            old = m.group(0)
+            for new_descr in (b"|O", b"<c16", b"<U8", b"|V16", b"<M8"):
+                new = b"'descr': '" + new_descr + b"'"
+                if len(new) <= len(old):
+                    variants.append(blob.replace(old, new + b" " * (len(old) - len(new)), 1))
+        m = re.search(rb"'shape': \(([0-9, ]*)\)", blob[:256])
+        if m:
+            old = m.group(0)
+            for new_shape in (b"(9,)", b"(0,)", b"()"):
+                new = b"'shape': " + new_shape
+                if len(new) <= len(old):
+                    variants.append(blob.replace(old, new + b" " * (len(old) - len(new)), 1))
+        for v in variants:
+            buf = io.BytesIO()
+            with zipfile.ZipFile(buf, "w") as zo:
+                for n2, b2 in members.items():
+                    zo.writestr(n2, v if n2 == name else b2)
+            out.append(buf.getvalue())
+        break
+    return out
+
+
+EXTREME_PROTOCOLS = [float("-inf"), float("inf"), float("nan"), -10 ** 18, 10 ** 18, -1, 1e300, -1e300, 0.5, True, "2", None, [], {}]
+
+
 def run_workers(R, cfg, cases, shards=8, timeout=1500):
     shards = max(1, min(shards, len(cases)))
     chunks = [cases[i::shards] for i in range(shards)]
@@ -110,6 +153,23 @@ def run(R, only_cases=None):
     for c, r in zip(cases, rob):
         judge(R, "schema-mutation", {"case": {k: c[k] for k in ("schema", "members", "show")}, "T": None}, r)
     if only_cases is None:
+        # ... the protocol field pushed to the extremes of what JSON can say (implementation only: the model's floats
+        # are half-integers) ...
+        rnd_x = random.Random(R.seed + 19)
+        base = [G.gen_case(rnd_x, malformed_p=0.0) for _ in range(6)]
+        xcases = []
+        for c in base:
+            for pv in EXTREME_PROTOCOLS:
+                sch = dict(c["schema"])
+                sch["protocol"] = pv
+                xcases.append({"schema": sch, "members": c["members"]})
+        xrob = run_workers(R, cfg, xcases)
+        for c, r in zip(xcases, xrob):
+            R.case({"extreme-protocol": repr(c["schema"]["protocol"]), "root": c["schema"].get("__loader__")}, nontrivial=True)
+            judge(R, "extreme-protocol", {"case": {"schema": json.loads(json.dumps(c["schema"], default=str)) if not isinstance(c["schema"]["protocol"], float) else
+                                                   {**{k: v for k, v in c["schema"].items() if k != "protocol"}, "protocol": repr(c["schema"]["protocol"])},
+                                                   "members": c["members"], "show": "all"}, "protocol_repr": repr(c["schema"]["protocol"]), "T": None}, r)
+        R.notes["extreme_protocol_cases"] = len(xcases)
         # ... and byte-level mutations of real dumps (search support only)
         nb = 60 if R.tier == "quick" else 600
         specs = [GV.gen_value(rnd, supported=True, max_depth=2) for _ in range(nb)]
@@ -117,9 +177,23 @@ def run(R, only_cases=None):
         if p.returncode == 0:
             dumps = [d for d in json.loads(p.stdout) if d]
             bcases = []
+            nhdr = 0
             for d in dumps:
                 for m in byte_mutations(rnd, bytes.fromhex(d), 4):
                     bcases.append({"hex": m.hex()})
+                if nhdr < (40 if R.tier == "quick" else 400):
+                    for m in npy_header_mutations(bytes.fromhex(d)):
+                        bcases.append({"hex": m.hex()})
+                        nhdr += 1
+            # arrays are rare in random values: make sure some member-bearing dumps are there
+            p2 = C.run_impl("impl_codec.py", input_obj={"mode": "dump_hex", "cases": [["ndarray", "<f8", [3], "C", 1], ["list", [["ndarray", "<i8", [2, 2], "C", 2], ["ndarray", "<f4", [4], "C", 3]]]]}, timeout=300)
+            if p2.returncode == 0:
+                for d in json.loads(p2.stdout):
+                    if d:
+                        for m in npy_header_mutations(bytes.fromhex(d)):
+                            bcases.append({"hex": m.hex()})
+                            nhdr += 1
+            R.notes["npy_header_mutations"] = nhdr
             brob = run_workers(R, cfg, bcases)
             for c, r in zip(bcases, brob):
                 R.case({"bytes": C.sha(c["hex"])}, nontrivial=True)
